@@ -333,6 +333,10 @@ func TestReplay(t *testing.T) {
 	if err != nil {
 		t.Fatal(err)
 	}
+	if cf.Sub == "agent" {
+		replayAgentStop(t, cf.Case)
+		return
+	}
 	if cf.Sub == "proc" {
 		replayProc(t, cf.Case)
 		return
